@@ -1,4 +1,5 @@
 import Jose.JWE
+import Jose.JWT
 /-!
 # JWE encryption (`jwe.encrypt_compact/encrypt_json`, `perform_encrypt`, `pre/post_encrypt_recipients`,
 `prepare_ephemeral_key`, the `encrypt_cek` / `encrypt_agreed_upon_key` wrappers, `represent_*`)
@@ -304,5 +305,16 @@ def encryptJson (P : Prims) (E : Env) (K : KeyEnv) (T : KeyTables) (C : EncConst
     match e.recipients with
     | r :: _ => pure (.obj (base ++ recipientJson r), e)
     | [] => throw .indexError
+
+end Jose
+
+namespace Jose
+
+/-- `jwt.encode` over the JWE transport (`registry` is a `JWERegistry`; claims already converted by `convert_claims`):
+`encrypt_compact({"typ": "JWT", **header}, payload, key, algorithms, registry)`. -/
+def jwtEncodeJwe (P : Prims) (E : Env) (K : KeyEnv) (T : KeyTables) (C : EncConsts) (reg : JweRegistry) (header claims : Dict)
+    (key : KeyArg) : Except Err (Bytes × Encrypted) := do
+  let payload ← P.jsonDumpsUtf8 (.obj claims)
+  encryptCompact P E K T C reg (jwtHeader header) payload key none
 
 end Jose
